@@ -17,14 +17,18 @@ CFG = {
          'non-empty); shape key = (op, same byte length?, relation eq/prefix/first differing byte class and bit, to mod 8 = 0?, payload '
          'class <8/8/>8 bytes | CmpUpto branch empty/short/ge, cmpBytes fast path?); distinct = distinct (op,args)',
  'assumptions': ['0 <= from <= to <= 8*len(s) (the domain of New stated in the property); strings are byte lists',
-                 '8*len(s)+7 < 2^31 (int32 bit positions cannot overflow; longer strings are outside every statement)',
+                 '8*len(s)+7 < 2^31 (int32 bit positions cannot overflow). The protocol operations run the int32-faithful model New32/Len32 (Model/Bitstr32.v), '
+                 'proved equal to the unbounded New/Len when toBit+7 < 2^31 (C09_new32_eq, C09_len32_eq). BOUNDARY FINDING: for toBit in [2^31-7, 2^31-1] '
+                 '(valid int32, reachable with a string of 2^28 bytes) (toBit+7)>>3 overflows and New panics in make (C09_new32_top_panics, '
+                 'C09_new_full_int32_range_refuted; replayed on the real code with a 256 MiB string: "makeslice: len out of range"); not exercised by the '
+                 'generator (the text protocol does not carry 256 MiB strings)',
                  'Cmp/CmpUpto/Len are exercised on encodings produced by the real New (the theorems hold for the canonical encoding of ANY bit list)'],
  'trusted': ['modelled not verified: bytes.Compare (= cmp_sign of lexicographic order on unsigned bytes, prefix first), copy, bits.OnesCount8 (popcount), bitmap.RMask (Lib/Bits.v RMask, pinned by C12)',
              'NOT PROVED, monitored only: memory safety of the unsafe string->slice re-typing in StrCmpUpto (since the fix 907cc2b the slice header is built explicitly '
              'with Cap = Len; before, a 24-byte slice header was read out of a 16-byte string header and the garbage capacity made a[:lb-2] panic intermittently); '
              'what stays unproved is that no store goes through the alias of the string; '
              'every StrCmpUpto case is compared with CmpUpto on the same bytes and the inputs are checked unchanged'],
- 'explanation': 'Model/Bitstr.v restates New/Cmp/cmpBytes/CmpUpto/Len with the same branches; Spec/BitstrSpec.v defines the bit string '
+ 'explanation': 'Model/Bitstr32.v makes the int32 arithmetic of New/Len explicit (wraps); Model/Bitstr.v restates New/Cmp/cmpBytes/CmpUpto/Len with the same branches; Spec/BitstrSpec.v defines the bit string '
                 'B s f t, its canonical encoding encB and uses bits_cmp (lexicographic, proper prefix first); Properties/C09.v proves '
                 'New = encB o B and, for arbitrary bit lists, Len/Cmp/CmpUpto of encodings = length / bits_cmp / truncated bits_cmp.',
 }
